@@ -37,7 +37,13 @@ var solverSem = make(chan struct{}, 16)
 
 // Solve races the installed solvers on one script. The first unsat/sat answer wins.
 func Solve(file string, timeoutS int, only []string) SolveResult {
-	ctx, cancel := context.WithTimeout(context.Background(), time.Duration(timeoutS+2)*time.Second)
+	return SolveCtx(context.Background(), file, timeoutS, only)
+}
+
+// SolveCtx is Solve under a parent context: cancelling it stops the solver processes (used to stop the
+// losing query of a race as soon as the other one has proved the goal).
+func SolveCtx(parent context.Context, file string, timeoutS int, only []string) SolveResult {
+	ctx, cancel := context.WithTimeout(parent, time.Duration(timeoutS+2)*time.Second)
 	defer cancel()
 	type one struct {
 		name, status, out string
@@ -263,9 +269,37 @@ func Discharge(obls []*Obligation, workdir string, timeoutS int) error {
 			}
 			splittable := o.expect() == "unsat" && o.RawScript == "" && o.Goal != nil && o.Goal.Op == "and" && len(o.Goal.Args) <= 64
 			if splittable && len(o.Goal.Args) >= 4 {
-				// conjunctive goals (expanded block-wise quantifiers): prove the conjuncts one by one
-				if r, ok := solveSplit(o, to); ok {
-					o.Result = r
+				// conjunctive goals (expanded block-wise quantifiers): prove the conjuncts one by one,
+				// racing against the undivided goal (some goals - e.g. byte-decomposition uniqueness -
+				// are easy as a whole and hard conjunct by conjunct); whichever proves it first wins
+				wctx, wcancel := context.WithCancel(context.Background())
+				sctx, scancel := context.WithCancel(context.Background())
+				whole := make(chan SolveResult, 1)
+				go func() { whole <- SolveCtx(wctx, o.File, to, nil) }()
+				type sres struct {
+					r  SolveResult
+					ok bool
+				}
+				split := make(chan sres, 1)
+				go func() { r, ok := solveSplitCtx(sctx, o, to); split <- sres{r, ok} }()
+				done := false
+				for i := 0; i < 2 && !done; i++ {
+					select {
+					case r := <-whole:
+						if r.Status == "unsat" {
+							o.Result = r
+							done = true
+						}
+					case s := <-split:
+						if s.ok {
+							o.Result = s.r
+							done = true
+						}
+					}
+				}
+				wcancel()
+				scancel()
+				if done {
 					return
 				}
 			}
@@ -303,6 +337,10 @@ func Discharge(obls []*Obligation, workdir string, timeoutS int) error {
 
 // solveSplit proves a conjunctive goal conjunct by conjunct under the same assumptions.
 func solveSplit(o *Obligation, to int) (SolveResult, bool) {
+	return solveSplitCtx(context.Background(), o, to)
+}
+
+func solveSplitCtx(ctx context.Context, o *Obligation, to int) (SolveResult, bool) {
 	total := 0.0
 	backend := ""
 	type res struct {
@@ -324,7 +362,7 @@ func solveSplit(o *Obligation, to int) (SolveResult, bool) {
 			sc := o.Bank.Script(o.Assume, g, o.chunks, o.Prelude, o.Axioms)
 			f := fmt.Sprintf("%s.part%d.smt2", strings.TrimSuffix(o.File, ".smt2"), k)
 			os.WriteFile(f, []byte(sc), 0o644)
-			results[k] = Solve(f, to, nil)
+			results[k] = SolveCtx(ctx, f, to, nil)
 		}(k, g)
 	}
 	wg.Wait()
@@ -444,7 +482,9 @@ func solveWithRelevance(o *Obligation, to int) SolveResult {
 		full bool
 	}
 	ch := make(chan tagged, 2)
-	go func() { ch <- tagged{Solve(o.File, to, nil), true} }()
+	rctx, rcancel := context.WithCancel(context.Background())
+	defer rcancel() // stops whichever query is still running when the result is known
+	go func() { ch <- tagged{SolveCtx(rctx, o.File, to, nil), true} }()
 	select {
 	case first := <-ch:
 		return first.r
@@ -457,7 +497,7 @@ func solveWithRelevance(o *Obligation, to int) SolveResult {
 	sc := o.Bank.Script(sub, o.Goal, o.chunks, o.Prelude, o.Axioms)
 	f := strings.TrimSuffix(o.File, ".smt2") + ".rel1.smt2"
 	os.WriteFile(f, []byte(sc), 0o644)
-	go func() { ch <- tagged{Solve(f, to, nil), false} }()
+	go func() { ch <- tagged{SolveCtx(rctx, f, to, nil), false} }()
 	label := func(t tagged) SolveResult {
 		if !t.full {
 			t.r.Backend += "(rel1)"
